@@ -63,6 +63,9 @@ class _World:
                 self.held = False
                 world.locks.append(self)
 
+            def __bool__(self):      # falsy while idle, as a lock whose truth value is "is it held" would be
+                return self.held
+
             async def __aenter__(self):
                 while self.held:
                     await Susp(["lock", world.locks.index(self)])
@@ -112,6 +115,9 @@ class _World:
         class C:
             def __init__(self, iid):
                 self.iid = iid
+
+            def __len__(self):       # instances are falsy (an empty container-like object)
+                return 0
 
             data = deco(getter)
 
